@@ -27,6 +27,8 @@ M = [
     ("C05-trim", "C05", "xgcm/padding.py", r"start = padding_width_expanded\[axname\]\[0\] - padding_width\[axname\]\[0\]\n(\s+)stop = padding_width_expanded\[axname\]\[1\] - padding_width\[axname\]\[1\]", r"start = padding_width_expanded[axname][1] - padding_width[axname][1]\n\1stop = padding_width_expanded[axname][0] - padding_width[axname][0]"),
     ("C05-sign", "C05", "xgcm/padding.py", r"if vectoraxis == axname:\n(\s+# If the input is an orthogonal)", r"if vectoraxis != axname:\n\1"),
     ("C04-partner-skipped", "C04", "xgcm/padding.py", r"source_da = da_partner_prepadded\.isel\(", "source_da = da_prepadded.isel("),
+    ("C04-vec2d-partner-sign", "C04", "xgcm/grid.py", r"(y_axis_name,\n\s+other_component=\{x_axis_name: )vector\[x_axis_name\]\}", r"\1-vector[x_axis_name]}"),
+    ("C06-vector-not-unpacked", "C06", "xgcm/grid_ufunc.py", r"_maybe_unpack_vector_component\(arg\)\.transpose\(\.\.\., \*in_core_dims\[i\]\)", "arg.transpose(..., *in_core_dims[i])"),
     # (not in the catalogue: `map_overlap = True if funcname != "cumsum"` -> always True is an equivalent mutant, Grid.cumsum
     #  never goes through the dispatcher)
     ("C06-no-merge", "C06", "xgcm/grid_ufunc.py", r"rechunked_arg = padded_arg\.chunk\(merged_boundary_chunks\)", "rechunked_arg = padded_arg"),
